@@ -159,6 +159,83 @@ theorem writeSKeys_spec (plen slen : Nat) (sk : Bytes) (l : List SKey)
       rw [ih (strncpy slen k.key) (fun x hx => hk x (by simp [hx])), cstr_strncpy slen k.key hk1.1 hk1.2]
       by_cases hn : NoAdjDup k.key (ks.map (·.key)) <;> simp [hn, heq, srecOf, List.append_assoc]
 
+/-! ## the cross-class merge pass (`cross_duplicate`) -/
+
+/-- no primary key is also an alias -/
+def NoCommon (P : List PKey) (S : List SKey) : Prop := ∀ p ∈ P, ∀ s ∈ S, p.key ≠ s.key
+
+instance (P : List PKey) (S : List SKey) : Decidable (NoCommon P S) := by unfold NoCommon; exact inferInstance
+
+theorem NoCommon.perm {P P' : List PKey} {S S' : List SKey} (hp : P'.Perm P) (hs : S'.Perm S) :
+    NoCommon P' S' ↔ NoCommon P S := by
+  unfold NoCommon
+  constructor
+  · intro h p hpm s hsm; exact h p (hp.mem_iff.mpr hpm) s (hs.mem_iff.mpr hsm)
+  · intro h p hpm s hsm; exact h p (hp.mem_iff.mp hpm) s (hs.mem_iff.mp hsm)
+
+/-- the merge pass over two `strcmp`-sorted streams (repeated keys allowed) reports `eslEDUP` iff some key occurs in
+    both -/
+theorem crossDup_spec (P : List PKey) (S : List SKey)
+    (hP : P.Pairwise (fun a b => keyLe a.key b.key = true)) (hS : S.Pairwise (fun a b => keyLe a.key b.key = true)) :
+    crossDup (fun k => Except.ok k) (fun k => Except.ok k) P S = if NoCommon P S then .ok () else .error .edup := by
+  generalize hn : P.length + S.length = n
+  induction n using Nat.strongRecOn generalizing P S with
+  | _ n ih =>
+    cases P with
+    | nil => simp [crossDup, NoCommon]
+    | cons x xs =>
+      cases S with
+      | nil => simp [crossDup, NoCommon]
+      | cons y ys =>
+        have hP' := List.pairwise_cons.mp hP
+        have hS' := List.pairwise_cons.mp hS
+        rw [crossDup]
+        simp only []
+        rcases hc : strcmp x.key y.key with _ | _ | _
+        · -- x < y: x is below every remaining alias
+          simp only []
+          rw [ih (xs.length + (y :: ys).length) (by subst hn; simp) xs (y :: ys) hP'.2 hS rfl]
+          have hx : ∀ s ∈ y :: ys, x.key ≠ s.key := by
+            intro s hs
+            rcases List.mem_cons.mp hs with rfl | hs
+            · exact strcmp_lt_ne hc
+            · rcases keyLe_iff.mp (hS'.1 s hs) with h1 | h1
+              · exact strcmp_lt_ne (strcmp_lt_trans hc h1)
+              · rw [← h1]; exact strcmp_lt_ne hc
+          have e : NoCommon (x :: xs) (y :: ys) ↔ NoCommon xs (y :: ys) := by
+            unfold NoCommon
+            constructor
+            · intro h p hp; exact h p (by simp [hp])
+            · intro h p hp
+              rcases List.mem_cons.mp hp with rfl | hp
+              · exact hx
+              · exact h p hp
+          by_cases hh : NoCommon xs (y :: ys) <;> simp [hh, e]
+        · -- equal
+          have : x.key = y.key := strcmp_eq_iff.mp hc
+          have hno : ¬ NoCommon (x :: xs) (y :: ys) := fun h => h x (by simp) y (by simp) this
+          simp [hno]
+        · -- x > y: y is below every remaining primary key
+          simp only []
+          have hc' : strcmp y.key x.key = .lt := strcmp_gt_iff.mp hc
+          rw [ih ((x :: xs).length + ys.length) (by subst hn; simp) (x :: xs) ys hP hS'.2 rfl]
+          have hy : ∀ p ∈ x :: xs, p.key ≠ y.key := by
+            intro p hp
+            rcases List.mem_cons.mp hp with rfl | hp
+            · exact (strcmp_lt_ne hc').symm
+            · rcases keyLe_iff.mp (hP'.1 p hp) with h1 | h1
+              · exact (strcmp_lt_ne (strcmp_lt_trans hc' h1)).symm
+              · rw [← h1]; exact (strcmp_lt_ne hc').symm
+          have e : NoCommon (x :: xs) (y :: ys) ↔ NoCommon (x :: xs) ys := by
+            unfold NoCommon
+            constructor
+            · intro h p hp s hs; exact h p hp s (by simp [hs])
+            · intro h p hp s hs
+              rcases List.mem_cons.mp hs with rfl | hs
+              · exact hy p hp
+              · exact h p hp s hs
+          by_cases hh : NoCommon (x :: xs) ys <;> simp [hh, e]
+
 /-! ## sorting -/
 
 theorem sortPKeys_sorted (l : List PKey) : (sortPKeys l).Pairwise (fun a b => keyLe a.key b.key = true) :=
@@ -202,7 +279,23 @@ def NewSsi.ssec (ns : NewSsi) : Bytes := ((sortSKeys ns.skeys).map (srecOf ns.pl
 /-- the index file of a well-formed index with distinct keys -/
 def NewSsi.image (ns : NewSsi) : Bytes := ns.header ++ ns.fsec ++ ns.psec ++ ns.ssec
 
-def NewSsi.Distinct (ns : NewSsi) : Prop := (ns.pkeys.map (·.key)).Nodup ∧ (ns.skeys.map (·.key)).Nodup
+/-- all keys of the index are distinct: no repeated primary key, no repeated alias, no alias that is also a primary key -/
+def NewSsi.Distinct (ns : NewSsi) : Prop :=
+  (ns.pkeys.map (·.key)).Nodup ∧ (ns.skeys.map (·.key)).Nodup ∧ NoCommon ns.pkeys ns.skeys
+
+theorem NewSsi.distinct_iff_nodup (ns : NewSsi) :
+    ns.Distinct ↔ (ns.pkeys.map (·.key) ++ ns.skeys.map (·.key)).Nodup := by
+  unfold NewSsi.Distinct NoCommon
+  rw [List.nodup_append]
+  constructor
+  · rintro ⟨h1, h2, h3⟩
+    refine ⟨h1, h2, ?_⟩
+    intro a ha b hb
+    obtain ⟨p, hp, rfl⟩ := List.mem_map.mp ha
+    obtain ⟨s, hs, rfl⟩ := List.mem_map.mp hb
+    exact h3 p hp s hs
+  · rintro ⟨h1, h2, h3⟩
+    exact ⟨h1, h2, fun p hp s hs => h3 _ (List.mem_map.mpr ⟨p, hp, rfl⟩) _ (List.mem_map.mpr ⟨s, hs, rfl⟩)⟩
 
 theorem WF.flen_pos {ns : NewSsi} (h : ns.WF) : 0 < ns.flen := by
   obtain ⟨f, hf⟩ := List.exists_mem_of_ne_nil _ h.files_ne
@@ -225,8 +318,15 @@ theorem skeys_noAdjDup_iff {ns : NewSsi} (h : ns.WF) :
     obtain ⟨x, hx, rfl⟩ := List.mem_map.mp hk
     exact (h.skey x ((sortSKeys_perm ns.skeys).mem_iff.mp hx)).1
 
-/-- what `esl_newssi_Write` does with an in-memory index: `eslEDUP` iff some key class has a repeated key, else the
-    image -/
+theorem cross_internal (ns : NewSsi) :
+    crossDup (fun k => Except.ok k) (fun k => Except.ok k) (sortPKeys ns.pkeys) (sortSKeys ns.skeys)
+      = if NoCommon ns.pkeys ns.skeys then .ok () else .error .edup := by
+  rw [crossDup_spec _ _ (sortPKeys_sorted ns.pkeys) (sortSKeys_sorted ns.skeys)]
+  have := NoCommon.perm (sortPKeys_perm ns.pkeys) (sortSKeys_perm ns.skeys)
+  by_cases hh : NoCommon ns.pkeys ns.skeys <;> simp [hh, this]
+
+/-- what `esl_newssi_Write` does with an in-memory index: `eslEDUP` iff some key occurs twice (within a class, or as a
+    primary key and as an alias), else the image -/
 theorem writeBytes_internal (ns : NewSsi) (h : ns.WF) [Decidable ns.Distinct] :
     ns.writeBytes = if ns.Distinct then .ok ns.image else .error .edup := by
   have hfl : ns.flen ≠ 0 := by have := WF.flen_pos h; omega
@@ -239,18 +339,22 @@ theorem writeBytes_internal (ns : NewSsi) (h : ns.WF) [Decidable ns.Distinct] :
     have := h.skey k ((sortSKeys_perm ns.skeys).mem_iff.mp hk)
     exact ⟨this.2.1, this.2.2⟩
   unfold NewSsi.writeBytes
-  simp only [hfl, ↓reduceIte, h.internal, Bool.false_eq_true]
-  rw [writePKeys_spec ns.plen _ _ hp, writeSKeys_spec ns.plen ns.slen _ _ hs, cstr_strncpy_nil, cstr_strncpy_nil]
-  by_cases h1 : (ns.pkeys.map (·.key)).Nodup
-  · by_cases h2 : (ns.skeys.map (·.key)).Nodup
-    · have hd : ns.Distinct := ⟨h1, h2⟩
-      simp only [(pkeys_noAdjDup_iff h).mpr h1, (skeys_noAdjDup_iff h).mpr h2, hd, ↓reduceIte]
-      rfl
-    · have hd : ¬ ns.Distinct := fun hd => h2 hd.2
-      have h2' : ¬ NoAdjDup [] ((sortSKeys ns.skeys).map (·.key)) := fun x => h2 ((skeys_noAdjDup_iff h).mp x)
-      simp only [(pkeys_noAdjDup_iff h).mpr h1, h2', hd, ↓reduceIte]
-  · have hd : ¬ ns.Distinct := fun hd => h1 hd.1
-    have h1' : ¬ NoAdjDup [] ((sortPKeys ns.pkeys).map (·.key)) := fun x => h1 ((pkeys_noAdjDup_iff h).mp x)
-    simp only [h1', hd, ↓reduceIte]
+  simp only [hfl, ↓reduceIte, h.internal, Bool.false_eq_true, cross_internal]
+  by_cases h0 : NoCommon ns.pkeys ns.skeys
+  · simp only [h0, ↓reduceIte]
+    rw [writePKeys_spec ns.plen _ _ hp, writeSKeys_spec ns.plen ns.slen _ _ hs, cstr_strncpy_nil, cstr_strncpy_nil]
+    by_cases h1 : (ns.pkeys.map (·.key)).Nodup
+    · by_cases h2 : (ns.skeys.map (·.key)).Nodup
+      · have hd : ns.Distinct := ⟨h1, h2, h0⟩
+        simp only [(pkeys_noAdjDup_iff h).mpr h1, (skeys_noAdjDup_iff h).mpr h2, hd, ↓reduceIte]
+        rfl
+      · have hd : ¬ ns.Distinct := fun hd => h2 hd.2.1
+        have h2' : ¬ NoAdjDup [] ((sortSKeys ns.skeys).map (·.key)) := fun x => h2 ((skeys_noAdjDup_iff h).mp x)
+        simp only [(pkeys_noAdjDup_iff h).mpr h1, h2', hd, ↓reduceIte]
+    · have hd : ¬ ns.Distinct := fun hd => h1 hd.1
+      have h1' : ¬ NoAdjDup [] ((sortPKeys ns.pkeys).map (·.key)) := fun x => h1 ((pkeys_noAdjDup_iff h).mp x)
+      simp only [h1', hd, ↓reduceIte]
+  · have hd : ¬ ns.Distinct := fun hd => h0 hd.2.2
+    simp only [h0, hd, ↓reduceIte]
 
 end EaselModel.Ssi
